@@ -11,7 +11,7 @@ hooks = subprocess.run(['git', '-C', '/repo', 'log', '--format=%H %s'], capture_
 hook_commits = [l.split(' ', 1)[0] for l in hooks if l.split(' ', 1)[1].startswith('verif:')]
 checks = []
 for pid in ids:
-    if pid not in P.PROPS:
+    if pid not in P.PROPS or not P.PROPS[pid].get('lean'):
         continue
     c = P.PROPS[pid]
     checks.append({
@@ -23,14 +23,14 @@ for pid in ids:
         'engine': c.get('engine', 'lean-proof + l0-differential'),
         'level_claimed': {
             'category': 'proof',
-            'text': c.get('level_text', ''),
+            'text': c.get('level_text') or ('Lean 4 theorems (all inputs / all operation sequences, no bound) about an executable model of the anchored code for: ' + c['title'] + '. The model is tied to /repo on every run by regenerated constants and by a differential correspondence run, and an RFC-level Lean specification is evaluated as oracle on the implementation output.'),
             'design_ref': f'DESIGN.md section 9 ({pid})',
         },
         'level_note': c.get('level_note', 'Trusted base: ' + '; '.join(TRUSTED_BASE)),
         'technique': c.get('technique', 'Lean 4 theorems about an executable model + differential correspondence with the Go code'),
     })
 na = [{'property_id': pid, 'reason': P.NOT_CLAIMED.get(pid, 'check not built yet (planned in DESIGN.md section 9); not a claim that the technique cannot apply')}
-      for pid in ids if pid not in P.PROPS]
+      for pid in ids if pid not in P.PROPS or not P.PROPS[pid].get('lean')]
 m = {
     'version': 1,
     'setup_cmd': './setup.sh',
